@@ -34,12 +34,16 @@ def concat_parts(parts):
     if len(parts) == 1 and not isinstance(parts[0], PD):
         return parts[0]
     if isinstance(parts[0], pd.Index):
-        out = parts[0]
-        for p in parts[1:]:
+        ne = [p for p in parts if len(p)] or parts[:1]
+        out = ne[0]
+        for p in ne[1:]:
             out = out.append(p)
         return out
     if all(isinstance(p, PD) for p in parts):
-        return pd.concat(parts)
+        # what the user sees from compute(): dask's own concatenation drops empty partitions (whose dtypes and
+        # index names are stand-ins, not data) unless every partition is empty
+        nonempty = [p for p in parts if len(p)]
+        return pd.concat(nonempty if nonempty else parts[:1])
     return parts
 
 
